@@ -1,6 +1,7 @@
 package main
 
 import (
+	"go/types"
 	"fmt"
 	"sort"
 	"strings"
@@ -134,6 +135,23 @@ func runC13(c *Ctx) {
 	}
 
 	c13NumericEvaluation(c)
+	// the lexer scans exactly the text it was given
+	{
+		n := 0
+		for _, fn := range p.Funcs {
+			if !p.InLang(fn) {
+				continue
+			}
+			for _, st := range storesToField(fn, "Lexer", "src", false) {
+				n++
+				_, isParam := st.Val.(*ssa.Parameter)
+				c.check(isParam && isBasicString(st.Val.Type()), "R3", fmt.Sprintf("lexer-source-unmodified #%d in %s", n, shortName(fn)), p.InstrPos(st), "Lexer.src is the caller's text itself", "Lexer.src is set to "+p.Render(st.Val)+", not to the text the caller passed: bytes inside string and regex literals (which are scanned raw and may span lines) are rewritten before they are lexed")
+			}
+		}
+		if n == 0 {
+			c.undecided("R3", "lexer-source-unmodified", "", "no store to Lexer.src found")
+		}
+	}
 	c.shared("R7", "C06/R1", "a numeric literal never absorbs an adjacent sign: the prefix-operator parselet obtains its operand from the precedence-climbing function on every path (no path builds the node from the raw token stream)", keyHas("rbp lang.unary", "rbp-bypass", "rbp lang.literal"), func(s *Ctx) {
 		m := extractPratt(s.P)
 		prattParselets(s, m)
@@ -822,4 +840,9 @@ func isPrivateTo(p *Program, h, fn *ssa.Function) bool {
 		}
 	}
 	return n > 0
+}
+
+func isBasicString(T types.Type) bool {
+	b, ok := T.Underlying().(*types.Basic)
+	return ok && b.Kind() == types.String
 }
